@@ -185,6 +185,9 @@ func (x *Exec) havocCall(st *State, key string, c *ssa.CallCommon, args []*Val, 
 	}
 	v := x.havocVal(rt, "ret."+shortKey(key))
 	x.assume(st, x.typeFacts(v, rt))
+	if nonNilResult[key] && v.K == VScalar && v.T.S == SInt {
+		x.assume(st, tCmp(">", v.T, intLit(0)))
+	}
 	if pure {
 		// func values handed out by effect-free externals (context cancel funcs, ...) are effect-free on modelled state
 		var mark func(v *Val, t types.Type)
@@ -321,6 +324,11 @@ func (x *Exec) contractCall(st *State, key string, fc *FuncContract, c *ssa.Call
 	if rt != nil {
 		res = x.havocVal(rt, "ret."+short)
 		x.assume(st, x.typeFacts(res, rt))
+		if rf := x.refFacts(st, res, rt); !isTrue(rf) {
+			// the callee may have allocated: the allocation set grows, and returned references lie in it
+			x.havocHeapKey(st, allocKey, "call")
+			x.assume(st, x.refFacts(st, res, rt))
+		}
 		if res.K == VTuple {
 			for i, f := range res.F {
 				post[fmt.Sprintf("result%d", i)] = retypeIfNil(f, rt.(*types.Tuple).At(i).Type())
@@ -616,3 +624,6 @@ func (x *Exec) modKeysStatic(m *Expr, fc *FuncContract, c *ssa.CallCommon) ([]st
 	}
 	return keys, "", nil
 }
+
+// externals documented to return a non-nil pointer
+var nonNilResult = map[string]bool{"time.NewTimer": true, "time.NewTicker": true, "log/slog.Default": true, "log/slog.New": true, "net/http.NewServeMux": true}
